@@ -175,25 +175,47 @@ Proof. intros cs vs k b c c' H. unfold prune_flin_ne_reif in H.
   destruct (reif_is (fst c) b 1). { eapply prune_flin_ne_isafe; eauto. }
   destruct (reif_is (fst c) b 0). { eapply prune_flin_eq_gen_isafe; eauto. }
   destruct (fixed_sum_float cs vs (fst c) c_zero); [destruct (fge _ _)|]; try solve [eapply set_reif_isafe; eauto]. inversion H; apply store_ile_refl. Qed.
-Lemma prune_fleq_isafe : forall x y, isafe (prune_fleq x y).
-Proof. intros x y c c' H. unfold prune_fleq in H.
+Lemma prune_fleq_plain_isafe : forall x y, isafe (prune_fleq_plain x y).
+Proof. intros x y c c' H. unfold prune_fleq_plain in H.
   destruct (fv_set_max x (fv_max y (fst c)) c) as [c1|] eqn:E; [|discriminate].
   eapply store_ile_trans. eapply (proj1 (fv_set_isafe y)); eauto. eapply (proj2 (fv_set_isafe x)); eauto. Qed.
+Lemma bound_above_isafe : forall x k, isafe (bound_above x k).
+Proof. intros x k c c' H. unfold bound_above in H.
+  destruct (fv_set_max x k c) as [c1|] eqn:E; [|discriminate]. apply (proj2 (fv_set_isafe x)) in E.
+  destruct (val_lt k _). { apply (proj2 (fv_set_isafe x)) in H. eauto using store_ile_trans. } inversion H; subst; auto. Qed.
+Lemma bound_below_isafe : forall x k, isafe (bound_below x k).
+Proof. intros x k c c' H. unfold bound_below in H.
+  destruct (fv_set_min x k c) as [c1|] eqn:E; [|discriminate]. apply (proj1 (fv_set_isafe x)) in E.
+  destruct (val_gt k _). { apply (proj1 (fv_set_isafe x)) in H. eauto using store_ile_trans. } inversion H; subst; auto. Qed.
+Lemma prune_fleq_isafe : forall x y, isafe (prune_fleq x y).
+Proof. intros x y c c' H. unfold prune_fleq in H.
+  destruct (fv_float_const y (fst c) && fv_float_var x (fst c)). { eapply bound_above_isafe; eauto. }
+  destruct (fv_float_const x (fst c) && fv_float_var y (fst c)). { eapply bound_below_isafe; eauto. }
+  eapply prune_fleq_plain_isafe; eauto. Qed.
 Lemma prune_flt_isafe : forall x y, isafe (prune_flt x y).
-Proof. intros x y c c' H. unfold prune_flt in H. destruct (int_below_float_var x y (fst c)). eapply prune_fleq_isafe; eauto.
+Proof. intros x y c c' H. unfold prune_flt in H. destruct (int_below_float_var x y (fst c)). eapply prune_fleq_plain_isafe; eauto.
   destruct (int_below_float_const x y (fst c)).
   { destruct (fge _ _); [|discriminate]. eapply (proj2 (fv_set_isafe x)); eauto. }
   destruct (float_const_below_int x y (fst c)).
   { destruct (fle _ _); [|discriminate]. eapply (proj1 (fv_set_isafe y)); eauto. }
-  eapply prune_fleq_isafe; eauto. Qed.
-Lemma prune_feq_isafe : forall x y, isafe (prune_feq x y).
-Proof. intros x y c c' H. unfold prune_feq in H.
+  eapply prune_fleq_plain_isafe; eauto. Qed.
+Lemma prune_feq_plain_isafe : forall x y, isafe (prune_feq_plain x y).
+Proof. intros x y c c' H. unfold prune_feq_plain in H.
   destruct (fv_set_min x _ c) as [c1|] eqn:E1; [|discriminate].
   destruct (fv_set_max x _ c1) as [c2|] eqn:E2; [|discriminate].
   destruct (fv_set_min y _ c2) as [c3|] eqn:E3; [|discriminate].
   apply (proj2 (fv_set_isafe y)) in H. apply (proj1 (fv_set_isafe y)) in E3.
   apply (proj2 (fv_set_isafe x)) in E2. apply (proj1 (fv_set_isafe x)) in E1.
   eauto using store_ile_trans. Qed.
+Lemma prune_feq_isafe : forall x y, isafe (prune_feq x y).
+Proof. intros x y c c' H. unfold prune_feq in H.
+  destruct (fv_float_const y (fst c) && fv_float_var x (fst c)).
+  { destruct (bound_below x _ c) as [c1|] eqn:E; [|discriminate].
+    apply bound_below_isafe in E. apply bound_above_isafe in H. eauto using store_ile_trans. }
+  destruct (fv_float_const x (fst c) && fv_float_var y (fst c)).
+  { destruct (bound_below y _ c) as [c1|] eqn:E; [|discriminate].
+    apply bound_below_isafe in E. apply bound_above_isafe in H. eauto using store_ile_trans. }
+  eapply prune_feq_plain_isafe; eauto. Qed.
 Lemma prune_ilin_le_mixed_isafe : forall cs vs k, isafe (prune_ilin_le_mixed cs vs k).
 Proof. intros cs0 vs0 k. unfold prune_ilin_le_mixed. generalize 0%nat. generalize cs0 at 2. generalize vs0 at 2.
   intros vs cs. revert vs. induction cs as [|c cs IH]; intros vs i c0 c'; simpl. { intro H; inversion H; apply store_ile_refl. }
@@ -565,6 +587,28 @@ Lemma floatlineq_mixed_ok :
   obs_ctx (prune_flin_eq [of_bits 0x4008000000000000; of_bits 0x3fe8000000000000] [1%nat; 0%nat] (of_bits 0x3ff6800000000000) (w_eqmix_store, []))
     = obs_ctx (Some (w_eqmix_store, [])).
 Proof. vm_compute. split; reflexivity. Qed.
+
+(* -- (e2) a float variable against a float CONSTANT that is not on its step grid (step 0.1).  BEFORE the repair "a float variable
+      is compared with a float constant through its own setters only" (prune_fleq_plain / prune_feq_plain: the constant re-tested
+      exactly) x in [4.4, 6.5] (what x >= 4.375 leaves), x <= 4.375 failed; x in [-2, 6.5], x == 1.25 failed.  AFTER: x is fixed
+      at 4.4 resp. 1.3.  A constant beyond the opposite bound within the precision tolerance (1.625 <= x, x in [-2, 1.5]: the
+      setter alone leaves x untouched) fixes x at that bound, 1.5; beyond the tolerance (2.0 <= x) the space fails as before *)
+Definition w_og_step : f64 := of_bits 0x3fb999999999999a.
+Definition w_og_s1 : fstore := [VF (mkfi (of_bits 0x401199999999999a) (of_bits 0x401a000000000000) w_og_step)].
+Definition w_og_s2 : fstore := [VF (mkfi (of_bits 0xc000000000000000) (of_bits 0x401a000000000000) w_og_step)].
+Definition w_og_s3 : fstore := [VF (mkfi (of_bits 0xc000000000000000) (of_bits 0x3ff8000000000000) w_og_step)].
+Lemma offgrid_const_ok :
+  prune_fleq_plain (FVar 0) (FConst (VlF (of_bits 0x4011800000000000))) (w_og_s1, []) = None /\
+  obs_ctx (prune_fleq (FVar 0) (FConst (VlF (of_bits 0x4011800000000000))) (w_og_s1, []))
+    = Some ([[1; 0x401199999999999a; 0x401199999999999a; 0x3fb999999999999a]], [0%nat]) /\
+  prune_feq_plain (FVar 0) (FConst (VlF (of_bits 0x3ff4000000000000))) (w_og_s2, []) = None /\
+  obs_ctx (prune_feq (FVar 0) (FConst (VlF (of_bits 0x3ff4000000000000))) (w_og_s2, []))
+    = Some ([[1; 0x3ff4cccccccccccd; 0x3ff4cccccccccccd; 0x3fb999999999999a]], [0%nat; 0%nat]) /\
+  prune_fleq_plain (FConst (VlF (of_bits 0x3ffa000000000000))) (FVar 0) (w_og_s3, []) = None /\
+  obs_ctx (prune_fleq (FConst (VlF (of_bits 0x3ffa000000000000))) (FVar 0) (w_og_s3, []))
+    = Some ([[1; 0x3ff8000000000000; 0x3ff8000000000000; 0x3fb999999999999a]], [0%nat]) /\
+  prune_fleq (FConst (VlF (of_bits 0x4000000000000000))) (FVar 0) (w_og_s3, []) = None.
+Proof. vm_compute. repeat split; reflexivity. Qed.
 
 (* -- (e) strict comparison of a float variable with an integer literal: x > 2 is lowered (LinearInt, op Gt) to IntLinLe([-1],[x],-3),
       i.e. x >= 3: on x in [0, 2.5] the space fails although 2.25 satisfies x > 2 with a margin of 25 steps of 0.01 *)
